@@ -42,12 +42,28 @@ def main():
             mod.run(ctx)
         rc = core.finish(ctx, level=getattr(mod, "LEVEL", "model_checking"))
     except core.MachineryError as e:
-        print(f"MACHINERY-FAILURE property={pid}: {e}", file=sys.stderr)
-        rc = 2
+        if ctx.violations:
+            print(f"NOTE property={pid}: machinery problem after violations were recorded ({str(e)[:300]}); reporting the violations", file=sys.stderr)
+            try:
+                rc = core.finish(ctx, level=getattr(mod, "LEVEL", "model_checking"))
+            except core.MachineryError:
+                rc = 1
+        else:
+            print(f"MACHINERY-FAILURE property={pid}: {e}", file=sys.stderr)
+            rc = 2
     except Exception:
         traceback.print_exc()
-        print(f"MACHINERY-FAILURE property={pid}: unexpected harness exception", file=sys.stderr)
-        rc = 2
+        if ctx.violations:
+            # the harness tripped after it had already observed violations (typically because the broken tree left
+            # nothing to sample): report the violations, they are the verdict
+            print(f"NOTE property={pid}: harness exception after violations were recorded; reporting the violations", file=sys.stderr)
+            try:
+                rc = core.finish(ctx, level=getattr(mod, "LEVEL", "model_checking"))
+            except core.MachineryError:
+                rc = 1
+        else:
+            print(f"MACHINERY-FAILURE property={pid}: unexpected harness exception", file=sys.stderr)
+            rc = 2
     finally:
         ctx.cleanup()
     print(f"check {pid} tier={a.tier} seed={seed} exit={rc}")
